@@ -383,6 +383,9 @@ func (p *path) addRule(
 		if m.body == nil {
 			return fmt.Errorf("body field error %v", rule.Body)
 		}
+		if fd := m.body[len(m.body)-1]; fd.Message() == nil || fd.IsList() || fd.IsMap() {
+			return fmt.Errorf("body field %v must be a message", rule.Body)
+		}
 		m.hasBody = true
 	}
 
@@ -392,6 +395,9 @@ func (p *path) addRule(
 		m.resp = fieldPath(desc.Output().Fields(), strings.Split(rule.ResponseBody, ".")...)
 		if m.resp == nil {
 			return fmt.Errorf("response body field error %v", rule.ResponseBody)
+		}
+		if fd := m.resp[len(m.resp)-1]; fd.Message() == nil || fd.IsList() || fd.IsMap() {
+			return fmt.Errorf("response body field %v must be a message", rule.ResponseBody)
 		}
 	}
 
